@@ -49,6 +49,7 @@ pub fn job_input(job: &Job) -> Vec<u8> {
 }
 
 pub fn run_job(job: &Job) -> Value {
+    tick(|| format!("generation job {}", job.id));
     let order = all_ops_sorted();
     let input = if job.mode == "bytes" {
         job_input(job)
@@ -136,39 +137,82 @@ pub fn run_job(job: &Job) -> Value {
 
 pub fn main(args: &[String]) -> i32 {
     if args.len() < 2 {
-        eprintln!("usage: pfv run-jobs <jobs.json> <out.ndjson> [threads]");
+        eprintln!("usage: pfv <run> <jobs.json> <out.ndjson> [threads]");
         return 2;
     }
     let threads: usize = args.get(2).and_then(|s| s.parse().ok()).unwrap_or(8);
+    let limit_s: u64 = std::env::var("PFV_JOB_TIMEOUT_S").ok().and_then(|s| s.parse().ok()).unwrap_or(300);
     let text = std::fs::read_to_string(&args[0]).expect("read jobs");
-    let jobs: Vec<Job> = serde_json::from_str(&text).expect("parse jobs");
+    let jobs: std::sync::Arc<Vec<Job>> = std::sync::Arc::new(serde_json::from_str(&text).expect("parse jobs"));
     std::panic::set_hook(Box::new(|_| {}));
     let n = jobs.len();
-    let chunks: Vec<Vec<Job>> = (0..threads)
-        .map(|t| jobs.iter().skip(t).step_by(threads).cloned().collect())
-        .collect();
+    // shared queue; every worker publishes the job it is working on so that a generation that does
+    // not return (C09) is reported as such instead of stalling the whole run
+    let next = std::sync::Arc::new(std::sync::atomic::AtomicUsize::new(0));
+    let results: std::sync::Arc<std::sync::Mutex<Vec<(u64, String)>>> = Default::default();
+    let current: std::sync::Arc<Vec<std::sync::Mutex<Option<(usize, std::time::Instant)>>>> =
+        std::sync::Arc::new((0..threads).map(|_| std::sync::Mutex::new(None)).collect());
+    let stack_mb = std::env::var("PFV_STACK_MB").ok().and_then(|s| s.parse::<usize>().ok()).unwrap_or(256);
     let mut handles = Vec::new();
-    for chunk in chunks {
+    for w in 0..threads {
+        let (jobs, next, results, current) = (jobs.clone(), next.clone(), results.clone(), current.clone());
         handles.push(
             std::thread::Builder::new()
-                .stack_size(std::env::var("PFV_STACK_MB").ok().and_then(|s| s.parse::<usize>().ok()).unwrap_or(256) << 20)
-                .spawn(move || {
-                    chunk
-                        .iter()
-                        .map(|j| (j.id, serde_json::to_string(&run_job(j)).unwrap()))
-                        .collect::<Vec<_>>()
+                .stack_size(stack_mb << 20)
+                .spawn(move || loop {
+                    let i = next.fetch_add(1, std::sync::atomic::Ordering::SeqCst);
+                    if i >= jobs.len() {
+                        *current[w].lock().unwrap() = None;
+                        break;
+                    }
+                    *current[w].lock().unwrap() = Some((i, std::time::Instant::now()));
+                    let line = serde_json::to_string(&run_job(&jobs[i])).unwrap();
+                    results.lock().unwrap().push((jobs[i].id, line));
+                    *current[w].lock().unwrap() = None;
                 })
                 .unwrap(),
         );
     }
-    let mut lines: Vec<(u64, String)> = Vec::with_capacity(n);
-    for h in handles {
-        lines.extend(h.join().expect("worker"));
+    let mut hung: Vec<usize> = Vec::new();
+    loop {
+        std::thread::sleep(std::time::Duration::from_millis(50));
+        let mut busy = 0;
+        for c in current.iter() {
+            if let Some((i, t0)) = *c.lock().unwrap() {
+                if t0.elapsed().as_secs() > limit_s {
+                    if !hung.contains(&i) { hung.push(i); }
+                } else {
+                    busy += 1;
+                }
+            }
+        }
+        let done = results.lock().unwrap().len();
+        if done + hung.len() >= n || (busy == 0 && next.load(std::sync::atomic::Ordering::SeqCst) >= n) {
+            break;
+        }
+    }
+    let mut lines: Vec<(u64, String)> = results.lock().unwrap().clone();
+    for i in &hung {
+        let j = &jobs[*i];
+        lines.push((j.id, serde_json::to_string(&json!({
+            "id": j.id,
+            "cfg": {"P": j.cfg.p, "min": j.cfg.min, "max": j.cfg.max, "muts": Vec::<i64>::new(), "mutUnsafe": if j.cfg.mut_unsafe {1} else {0},
+                    "rate": 1, "unsafe": if j.cfg.unsafe_ {1} else {0}, "ext": if j.cfg.ext {1} else {0}, "buf": if j.cfg.buf {1} else {0}},
+            "mode": if j.mode == "seed" {1} else {2}, "seed": j.seed.to_string(), "input": "", "hasinp": 0, "inp": Vec::<u8>::new(), "consumed": -1,
+            "res": 4, "msg": format!("generation did not return within {} s", limit_s), "bytes": Vec::<u8>::new(), "ev": Vec::<Value>::new(),
+        })).unwrap()));
     }
     lines.sort_by_key(|(id, _)| *id);
-    let mut out = std::io::BufWriter::new(std::fs::File::create(&args[1]).expect("create out"));
-    for (_, l) in lines {
-        writeln!(out, "{}", l).unwrap();
+    {
+        let mut out = std::io::BufWriter::new(std::fs::File::create(&args[1]).expect("create out"));
+        for (_, l) in lines {
+            writeln!(out, "{}", l).unwrap();
+        }
     }
+    if !hung.is_empty() {
+        // worker threads are still spinning inside the generator: leave without joining them
+        std::process::exit(0);
+    }
+    for h in handles { let _ = h.join(); }
     0
 }
